@@ -95,6 +95,12 @@ func TestCheck(t *testing.T) {
 	for _, cfg := range []qmodel.Config{{DLQMaxDepth: 1, PruneInterval: sec}, {DLQMaxDepth: 2, DLQMaxAge: 10 * sec, PruneInterval: sec}} {
 		jobs = append(jobs, job{"memory", runner.Pick(r, 6, 7), cfg, "dlq", false}, job{"sqlite", runner.Pick(r, 5, 6), cfg, "dlq", false})
 	}
+	if runner.ReplayPath() != "" {
+		if !qcheck.HandleReplay(r, []qcheck.Spec{{Name: "c02", Alpha: alpha()}, {Name: "c02-dlq", Alpha: dlqAlpha()}}, nil) {
+			twoHandlePart(r, t)
+		}
+		r.Finish()
+	}
 	par := 14
 	waves := (len(jobs) + par - 1) / par
 	budget := runner.Pick(r, 150*time.Second, 13*time.Minute) / time.Duration(waves)
